@@ -1,6 +1,7 @@
 package main
 
 import (
+	_ "embed"
 	"fmt"
 	"os"
 	"path/filepath"
@@ -13,6 +14,9 @@ import (
 	grpccodegen "goa.design/goa/v3/grpc/codegen"
 	httpcodegen "goa.design/goa/v3/http/codegen"
 )
+
+//go:embed driver_store.go.txt
+var driverStore string
 
 // resetDesign gives the DSL a fresh world (see /repo/expr/testing.go) and clears the
 // per-service caches of the code generators.
@@ -85,6 +89,14 @@ func generateAll(out, repo, harnessMod string) (map[string][]string, error) {
 			return nil, fmt.Errorf("design %s: generate: %w", d.Name, err)
 		}
 		files[d.Name] = outs
+	}
+	// the driver that mounts the generated "store" server and drives the generated client
+	ddir := filepath.Join(out, "store", "cmd", "echo")
+	if err := os.MkdirAll(ddir, 0o755); err != nil {
+		return nil, err
+	}
+	if err := os.WriteFile(filepath.Join(ddir, "main.go"), []byte(driverStore), 0o644); err != nil {
+		return nil, err
 	}
 	return files, nil
 }
